@@ -4,6 +4,7 @@ processes (fork), one case at a time, under an alarm."""
 import contextlib
 import io
 import os
+import re
 import signal
 import sys
 import traceback
@@ -74,6 +75,8 @@ def drive_filter(case):
     r = call_tex2txt(src, case.get('opts'), case.get('ml', False), case.get('thresh'))
     rec = {'id': case['id'], 'doc': case.get('doc', []), 'src': case['src'],
            'opts': case.get('opts') or {}, 'outcome': r['outcome'], 'stderr': r['stderr']}
+    rec['diags'] = [[int(a), int(b)] for a, b in re.findall(r'\*\*\* LaTeX error: line (\d+), column (\d+):', r['stderr'])]
+    rec['stderr'] = r['stderr'][-400:]
     if 'plain' in r:
         rec['plain'] = r['plain']
         rec['map'] = r['map']
